@@ -11,7 +11,7 @@
  *   pat     trees with 4 (thorough: 4 and 5) elements, depth <= 4: every name assignment x every program x
  *           16 attribute patterns x 9 text patterns (rotations of de Bruijn sequences: every ordered pair of
  *           attribute counts / text kinds occurs on every pair of consecutive elements) x 3 preambles
- *   limits  nesting chains around max depth (default 20 and option max_depth), small trees under max_depth 1/2,
+ *   limits  (incl. broad: a root with up to 25 descended children)  nesting chains around max depth (default 20 and option max_depth), small trees under max_depth 1/2,
  *           name length 255..258, 9..12 attributes, one end tag removed
  *
  * Violation signature: xml/<clause>:<step>:<shape class>   (independent of the section, so one defect seen
@@ -854,6 +854,27 @@ static uint64_t limits_case(uint64_t want, struct tcase *tc) {
                     return cnt;
                 }
     }
+    /* (f) breadth instead of depth: a root with N leaf children, every element descended into.  The depth limit counts
+     * nesting, not the number of descents made so far: 25 siblings at level 2 are within any limit >= 2 (added after a
+     * seeded change that never took a finished descent off the depth count) */
+    static const int bm[][2] = {{2, 2}, {3, 2}, {4, 2}, {18, 0}, {19, 0}, {20, 0}, {21, 0}, {25, 0}, {25, 2}, {25, 3}};
+    for (size_t p = 0; p < sizeof(bm) / sizeof(bm[0]); ++p)
+        for (int pat = 0; pat < 3; ++pat)
+            for (int last = 0; last < 3; ++last) {
+                if (cnt++ != want) continue;
+                int N = bm[p][0], parent[MAXN];
+                parent[0] = -1;
+                for (int i = 1; i <= N; ++i) parent[i] = 0;
+                tc_init(tc, "broad", N + 1, parent);
+                tc->max_depth = (size_t)bm[p][1];
+                for (int i = 0; i <= N; ++i) {
+                    tc_name(tc, i, chain_names[pat][i % 3]);
+                    tc->act[i] = A_DESCEND;
+                    tc->text[i] = i ? 1 : 0;
+                }
+                tc->act[N] = last == 0 ? A_DESCEND : last == 1 ? A_BODY : A_SKIP;
+                return cnt;
+            }
     return cnt;
 }
 static uint64_t LIM_total;
